@@ -700,11 +700,26 @@ def c01(tier):
                         "step the PUBLISH packets on every connection (topic, payload bytes, QoS, retain flag) are compared with the specification's bag.")
 
 
+def q2many(v, tier):
+    """many QoS 2 exchanges open at once: TLC -simulate behaviours of Q2ManySpec"""
+    thorough = tier == "thorough"
+    depth = 140 if not thorough else 220
+    cfg = BROKER_CFG % dict(spec="Q2ManySpec", depth=depth, maxqos=2, emit="EmitMany", view="")
+    r = core.run_tlc("MCBroker", cfg.replace("PROPERTIES StepProps\n", ""), workers=8, timeout=900, simulate=2 if not thorough else 20, depth=depth + 3, tlc_seed=core.seed())
+    v.tlc("Q2ManySpec(simulation)", r)
+    behs = core.behaviours(r.lines)
+    if not behs:
+        raise Infra("Q2ManySpec simulation produced no behaviours")
+    broker_replay(v, "C02", behs, "many-open-exchanges(simulation)", own_tags={"C02", "C01"})
+
+
 @check("C02")
 def c02(tier):
     return broker_check("C02", tier, [("QosSpec", "paths", 6, 7, "mockSuccess")], {"C02", "C01"},
                         "configuration qosrx: all operation sequences over QoS 2 PUBLISH (2 ids, DUP repeats with other content), PUBREL (3 ids incl. "
-                        "unknown), QoS 1 PUBLISH and 6 KB unrelated traffic that wraps the ring; acks on the publisher, hand-over to a witness subscriber.")
+                        "unknown), QoS 1 PUBLISH and 6 KB unrelated traffic that wraps the ring; acks on the publisher, hand-over to a witness subscriber. "
+                        "Plus TLC -simulate behaviours with up to 40 exchanges open at once (the incoming queue grows while its head has moved).",
+                        extra=lambda v: q2many(v, tier))
 
 
 @check("C07")
@@ -1055,6 +1070,9 @@ def c12(tier):
     # at the yield point between write and register
     behs = client_behaviours(v, "DevSpec", 4 if not thorough else 5, 2, "paths", dev="TRUE")
     client_replay(v, "C12", behs, "ack-before-register(gated)", {"C12", "C02"}, ["-dev", "1"])
+    # broker -> subscriber direction: PUBREL follows the subscriber's PUBREC with the same identifier
+    behs = broker_behaviours(v, "FwdSpec", 6 if not thorough else 7, "paths")
+    broker_replay(v, "C12", behs, "broker-as-sender(paths)", own_tags={"C12", "C02", "C01"})
     # broker -> subscriber direction: identifiers of requests simultaneously in flight
     p = core.run_harness(["fwdids", "-reps", "3" if not thorough else "20"], timeout=300)
     if p.returncode != 0:
